@@ -154,7 +154,7 @@ def gen_case(r, n=None, dims=(1, 1, 2, 2, 3, 4, 5), exact_only=False, spec=None,
     if r.random() < 0.04:
         case["discrete"] = r.choice((1, 2))   # the problem declares discrete parameters (ignored by this solver version)
     if r.random() < 0.06:
-        case["ev_probe"] = r.choice(("inverse", "both", "stored", "rebound"))    # the solver's evolvent is queried by the caller between the calls
+        case["ev_probe"] = r.choice(("inverse", "both", "stored", "rebound", "walk"))    # the solver's evolvent is queried by the caller between the calls
     if r.random() < 0.04:
         case["np_params"] = r.choice(("int64", "int32"))    # the parameters are given as numpy scalars
     if case["lim"] <= 60 and r.random() < 0.05:
@@ -363,6 +363,16 @@ class Run:
                 ev.GetInverseImage(np.array(mid, dtype=np.double))
                 if self.case["ev_probe"] == "both":
                     ev.GetImage(0.61)
+                if self.case["ev_probe"] == "walk":
+                    # the caller LOOKS at the search data between the calls and leaves the loop early (any(...), a `for` with
+                    # `break`, the read-only lookup by coordinate): a half-finished walk must not disturb the next iteration
+                    sd = self.solver.searchData
+                    if sd.GetCount() > 2:
+                        for k_, it in enumerate(sd):
+                            if k_ >= 1 + sd.GetCount() // 3:
+                                break
+                        any(it.GetX() > 0.4 for it in sd)
+                        sd.FindDataItemByOneDimensionalPoint(0.37)
                 if self.case["ev_probe"] == "rebound":
                     # the caller re-applies the SAME box through the public SetBounds (e.g. after editing the problem's bounds and
                     # deciding to keep them): nothing about the evolvent may change
